@@ -394,7 +394,10 @@ impl RootCase {
                 flags: WmoFlags::from_bits_truncate(d.flags),
                 ambient_color: self.ambient.c(),
             },
-            skybox: d.skybox.clone(),
+            // the value handed to the writer keeps a skybox even where the target version has no
+            // slot for one (the writer must drop it completely: no flag *and* no MOSB chunk); the
+            // expectation `d.skybox` is None there
+            skybox: self.skybox.clone(),
             convex_volume_planes: None,
         }
     }
